@@ -35,7 +35,9 @@ TwoDistinct(a) == NDistinct(Valid(Cells(a))) >= 2
 \* longer arrays whose standard deviation is rational and whose z scores are not all +-1 (-1, -1/3, -1/3, 5/3): they tell apart z-score thresholds
 \* that the two-valued short arrays cannot (all arrays over Small of length <= 3 with a rational deviation have z scores +-1)
 ZExtra == { <<"f", <<R(0), R(1), R(1), R(4)>>>>, <<"f", <<R(4), R(1), R(0), R(1)>>>>, <<"i", <<R(1), R(0), R(4), R(1)>>>>, <<"f", <<R(1), MV, R(4), R(1), R(0)>>>> }
-CvaArrays == {a \in ArraysOf("f", Small) \cup ArraysOf("i", Small) : TwoDistinct(a)} \cup (IF LenA = 3 THEN ZExtra ELSE {})
+\* constant data with a missing cell: Normalize has nothing to spread (0/0: every cell missing), and the missing cell stays missing
+ConstExtra == { <<"f", <<R(2), MV, R(2)>>>>, <<"i", <<R(4), R(4), MV>>>>, <<"f", <<MV, Q(1, 2), Q(1, 2), Q(1, 2)>>>> }
+CvaArrays == {a \in ArraysOf("f", Small) \cup ArraysOf("i", Small) : TwoDistinct(a)} \cup (IF LenA = 3 THEN ZExtra \cup (IF WithMV THEN ConstExtra ELSE {}) ELSE {})
 
 \* inputs that the list commands must reject: no input at all, arrays of different lengths
 A2 == <<"f", <<R(1), R(2)>>>>
@@ -132,6 +134,7 @@ MidVals == << <<R(-1), Q(-1, 5), R(0), Q(2, 5), R(1)>>, <<R(0), Q(1, 4), Q(1, 2)
 HasStd(a) == ~IsMV(VStd(Valid(Cells(a))))
 MidOk(a, ign) == NDistinct(IF ign THEN SelectSeq(Valid(Cells(a)), LAMBDA c : c # R(0)) ELSE Valid(Cells(a))) >= 2
 CvaEntries(a) ==
+    IF ~TwoDistinct(a) THEN << <<"Normalize", <<>>>>, <<"Normalize", << <<"StartVal", R(-1)>>, <<"EndVal", R(1)>> >> >> >> ELSE
     [i \in 1..3 |-> <<"CvtToFuzzy", Dirs[i]>>]
     \o [i \in 1..3 |-> <<"CvtToFuzzy", << <<"TrueThreshold", R(3)>> >> \o Dirs[i]>>]
     \o [i \in 1..3 |-> <<"CvtToFuzzy", << <<"FalseThreshold", Q(1, 2)>> >> \o Dirs[i]>>]
@@ -192,6 +195,7 @@ Commutes(cmd) == cmd \in Unweighted \cup WeightedCmds
 Undefined(cmd, p, j) ==
     \/ cmd = "ADividedByB" /\ ~IsMV(Cells(ins[2])[j]) /\ Cells(ins[2])[j][1] = 0
     \/ cmd \in {"WeightedMean", "FuzzyWeightedUnion"} /\ SumSeq(P(p, "Weights")) = R(0)
+    \/ cmd = "Normalize" /\ NDistinct(Valid(Cells(ins[1]))) < 2            \* constant data: nothing to spread (0/0)
 MaskRule == done => \A e \in 1..Len(out) :
                IsOk(out[e][3]) => \A j \in 1..Len(out[e][3][2]) :
                    IsMV(out[e][3][2][j]) <=> (MissingIn(ins, j) \/ Undefined(out[e][1], out[e][2], j))
@@ -264,7 +268,7 @@ ConvArrayAlgebra == (done /\ Family = "cva") =>
     LET a == ins[1] cs == Cells(a) v == Valid(cs) IN
     \A e \in 1..Len(out) :
        LET cmd == out[e][1] p == out[e][2] r == out[e][3] IN
-       /\ (cmd = "Normalize" /\ IsOk(r)) =>                                                \* min -> StartVal, max -> EndVal
+       /\ (cmd = "Normalize" /\ IsOk(r) /\ TwoDistinct(a)) =>                              \* min -> StartVal, max -> EndVal (constant data has no range)
              \A j \in 1..Len(cs) : ~IsMV(cs[j]) =>
                  /\ (cs[j] = MinSeq(v) => r[2][j] = PD(p, "StartVal", R(0)))
                  /\ (cs[j] = MaxSeq(v) => r[2][j] = PD(p, "EndVal", R(1)))
@@ -272,7 +276,7 @@ ConvArrayAlgebra == (done /\ Family = "cva") =>
              \A j \in 1..Len(cs) : ~IsMV(cs[j]) =>
                  /\ (cs[j] = MinSeq(v) => r[2][j] = IF PD(p, "Direction", "LowToHigh") = "HighToLow" THEN R(1) ELSE R(-1))
                  /\ (cs[j] = MaxSeq(v) => r[2][j] = IF PD(p, "Direction", "LowToHigh") = "HighToLow" THEN R(-1) ELSE R(1))
-       /\ (cmd \in {"Normalize", "CvtToFuzzy"} /\ IsOk(r)) =>                               \* monotone mappings preserve (or reverse) order
+       /\ (cmd \in {"Normalize", "CvtToFuzzy"} /\ IsOk(r) /\ TwoDistinct(a)) =>               \* monotone mappings preserve (or reverse) order
              \A i, j \in 1..Len(cs) : (~IsMV(cs[i]) /\ ~IsMV(cs[j]) /\ RLe(cs[i], cs[j])) =>
                  (RLe(r[2][i], r[2][j]) \/ RLe(r[2][j], r[2][i]))
        /\ (cmd = "CvtToFuzzyZScore" /\ Has(p, "TrueThresholdZScore")) =>                    \* fuzzy variant = Normalize variant on [-1, 1]
